@@ -45,6 +45,8 @@ impl Default for SupervisionTree {
 impl SupervisionTree {
     /// Transactionally replace a child's supervisor and update both parents' child sets.
     pub(crate) fn link(child: &ActorCell, supervisor: ActorCell) -> bool {
+        #[cfg(ractor_verif)]
+        crate::verif::point("tree.pre", 0, 0);
         let _mutation_guard = TREE_MUTATION_LOCK.lock().unwrap();
 
         if child.get_status() >= super::actor_cell::ActorStatus::Draining
@@ -92,6 +94,8 @@ impl SupervisionTree {
 
     /// Unlink a child if `supervisor` is still its current supervisor.
     pub(crate) fn unlink(child: &ActorCell, supervisor: &ActorCell) {
+        #[cfg(ractor_verif)]
+        crate::verif::point("tree.pre", 0, 0);
         let _mutation_guard = TREE_MUTATION_LOCK.lock().unwrap();
         let mut current_supervisor = child.inner.tree.supervisor.lock().unwrap();
         if !current_supervisor
@@ -114,6 +118,8 @@ impl SupervisionTree {
 
     /// Close this actor's child set and detach the children for iterative termination.
     pub(crate) fn take_children(parent: &ActorCell) -> Vec<ActorCell> {
+        #[cfg(ractor_verif)]
+        crate::verif::point("tree.pre", 0, 0);
         let _mutation_guard = TREE_MUTATION_LOCK.lock().unwrap();
         let mut children = parent.inner.tree.children.lock().unwrap();
         let cells = children
